@@ -493,6 +493,10 @@ func (e *Engine) fork(st *State, c *Term) bool {
 		e.res.Unchecked++
 		if slowLog {
 			fmt.Fprintf(os.Stderr, "  unknown branch at %s: %s\n", posOf(st, e), trunc(c.String(), 300))
+			slowDump++
+			if slowDump <= 3 {
+				writeFile(fmt.Sprintf("/verif/tmp/slow_%d.smt2", slowDump), Script(append(append([]*Term(nil), st.pc...), c), "; slow branch query\n"))
+			}
 		}
 	}
 	switch {
@@ -730,6 +734,7 @@ func condKey(c *Term) int {
 
 var lastProgress = time.Now()
 var forkSites = map[string]int{}
+var slowDump int
 
 func unwindSignalFor(st *State, e *Engine) interface{} {
 	return killSignal{"UNWIND " + posOf(st, e)}
